@@ -151,6 +151,17 @@ FIXED += [(f'import-location-shape-{k}', '<xs:schema xmlns:xs="http://www.w3.org
           for k, loc in enumerate(LOCATION_SHAPES)]
 
 
+# names are schema-supplied text too: NCNames with multi-byte characters at every small byte offset (byte-indexed slicing / truncation of a
+# QName panics in the middle of a character), used as element / type / attribute name and as the target of ref=, type=, base=
+NON_ASCII_NAMES = ['\u65e5\u672c\u8a9e', 'H\u00f6he', '\u540d\u524d', 'a\u00e9', '\u00fc', 'ab\u00e9', 'abc\u00e9d', 'x\u20acy', 'xm\u00fc', 'xml\u00e9', 'abcd\u00e9', '\u00e9abc', 'Stra\u00dfe_\u00f1']
+FIXED += [(f'non-ascii-name-{k}', '<xs:schema xmlns:xs="http://www.w3.org/2001/XMLSchema" targetNamespace="urn:a" xmlns:a="urn:a" xmlns:t="urn:a" elementFormDefault="qualified">'
+           f'<xs:element name="{n}" type="xs:string"/><xs:simpleType name="S{n}"><xs:restriction base="xs:string"><xs:maxLength value="3"/><xs:enumeration value="{n}"/></xs:restriction></xs:simpleType>'
+           f'<xs:complexType name="B{n}"><xs:sequence><xs:element name="{n}" type="a:S{n}"/><xs:element ref="t:{n}" minOccurs="0"/><xs:element ref="{n}" maxOccurs="unbounded"/></xs:sequence><xs:attribute name="{n}" type="xs:string"/></xs:complexType>'
+           f'<xs:complexType name="{n}"><xs:complexContent><xs:extension base="t:B{n}"><xs:sequence><xs:element name="own" type="t:S{n}"/></xs:sequence></xs:extension></xs:complexContent></xs:complexType>'
+           f'<xs:element name="E{n}" type="a:{n}"/></xs:schema>')
+          for k, n in enumerate(NON_ASCII_NAMES)]
+
+
 def search(repo: str = REPO, tier: str = 'quick', seed: int = 0) -> dict:
     rng = random.Random(seed)
     root = os.path.join(scratch(), 'c13')
